@@ -646,9 +646,21 @@ class ModelWorld(engine.World):
     self.calls = []
     if getattr(self.builder, "to_model_inputs_spec", None) is not None:
       x = self._model_inputs(x)
-    with ctx.sut("fit"):
-      self.model.fit(x, y, batch_size=int(ev["batch"]), epochs=1, verbose=0,
-                     shuffle=False)
+    try:
+      with ctx.sut("fit"):
+        self.model.fit(x, y, batch_size=int(ev["batch"]), epochs=1, verbose=0,
+                       shuffle=False)
+    except engine.SutError:
+      # Several optimizer steps run inside one fit(); a diverging one can
+      # leave non-finite weights, on which the next forward pass may raise
+      # (NaN into a simplex gather). Non-finite weights are outside every
+      # claimed property: the run ends here. With finite weights the error
+      # stands.
+      if common.all_finite(common.np_weights(self.model.weights)):
+        raise
+      ctx.count("guard:nonfinite_during_fit")
+      self.stop_requested = True
+      return
     ctx.steps += max(1, n // int(ev["batch"]))
     # Model.fit applies constraints inside its (possibly traced) train step in
     # variable creation order; kernel projections therefore saw the final
